@@ -8,7 +8,11 @@
    IVerdict d           jsonschema (reference validator) on the document     -> verdict under geff-schema.json and under
                                                                                the freshly exported schema
    Documents and objects are compared up to member order (python dict equality). *)
+(* the key-level store first: the metadata model's names (md_version, axis, ...) must win over Tree.v's; the key-name
+   abbreviations last: they must win over the schema fragments of MetaJson.v (s_unit, s_type) *)
+From Geff Require Export Dtype Vlen Tree KeyStore.
 From Geff Require Export Base Meta Json Schema MetaJson.
+From Geff Require Export KeyNames MetaKeys.
 From Geff.Gen Require Export Schema.
 Open Scope list_scope.
 
@@ -19,14 +23,16 @@ Inductive input :=
 | IParse (gv : string) (d : jv)
 | IAttrs (gv : string) (st : gstate) (m : metadata)
 | IRead (gv : string) (st : gstate)
-| IVerdict (d : jv).
+| IVerdict (d : jv)
+| IAttrsK (gv : string) (ks : kstore) (m : metadata).   (* GeffMetadata.write / read on the raw KEYS of the store (MetaKeys.v) *)
 
 Inductive obs :=
 | OJson (j : jv)
 | OText (j : jv) (r : res metadata)
 | OParse (r : res metadata)
 | OAttrs (after : jv) (r : res metadata)
-| OVerdict (published exported : bool).
+| OVerdict (published exported : bool)
+| OAttrsK (after : kstore) (r : res metadata).   (* every key of the store afterwards (.zmetadata left out), GeffMetadata.read *)
 
 Definition model (i : input) : obs :=
   match i with
@@ -39,7 +45,23 @@ Definition model (i : input) : obs :=
       OAttrs (JObj (match st' with Some a => a | None => [] end)) (md_read gv st')
   | IRead gv st => OParse (md_read gv st)
   | IVerdict d => OVerdict (validates schema_published d) (validates schema_exported d)
+  | IAttrsK gv ks m =>
+      match md_write_k m ks with
+      | Ok ks' => OAttrsK ks' (md_read_k gv ks')
+      | Err e => OAttrsK [] (Err e)
+      end
   end.
+
+(* two key stores as maps: same keys, documents equal up to member order, chunks equal *)
+Definition kval_sim (a b : kval) : bool :=
+  match a, b with
+  | KDoc x, KDoc y => jsim x y
+  | KChunk x, KChunk y => zlist_eqb x y
+  | _, _ => false
+  end.
+Definition kstore_sub (a b : kstore) : bool :=
+  forallb (fun kv => match klookup (fst kv) b with Some v => kval_sim (snd kv) v | None => false end) a.
+Definition kstore_sim (a b : kstore) : bool := kstore_sub a b && kstore_sub b a.
 
 (* an object as a document that keeps every field (free-form values unconverted) *)
 Definition md_repr (m : metadata) : jv :=
@@ -56,6 +78,7 @@ Definition obs_eqb (a b : obs) : bool :=
   | OParse r, OParse s => res_eqb md_sim r s
   | OAttrs x r, OAttrs y s => jsim x y && res_eqb md_sim r s
   | OVerdict p e, OVerdict q f => Bool.eqb p q && Bool.eqb e f
+  | OAttrsK x r, OAttrsK y s => kstore_sim x y && res_eqb md_sim r s
   | _, _ => false
   end.
 
